@@ -30,9 +30,11 @@ def gen_layout(g, c=None):
     nchr = int(g.integers(1, 5)); m = int(g.integers(max(2, nchr), 41))
     chrgrp = pop.chrom_layout(g, m, nchr)
     st = pop.chrom_starts(chrgrp)
-    kind = ["constant", "random", "mixed", "haldane", "haldane", "kosambi", "leading-zeros"][int(g.integers(7))]
+    kind = ["constant", "random", "mixed", "haldane", "haldane", "kosambi", "leading-zeros", "above-half"][int(g.integers(8))]
     if c is not None and c % 4 == 0:
         kind = "haldane"; m = max(m, 8 + nchr); chrgrp = pop.chrom_layout(g, m, nchr); st = pop.chrom_starts(chrgrp)   # guarantees non-adjacent pair tests in every run
+    if c is not None and c % 12 == 5:
+        kind = "above-half"         # every run holds at least one layout with probabilities above one half
     if c is not None and c % len(PROTOS) < 2 and kind == "leading-zeros":
         kind = "mixed"     # the end-to-end selfing clause needs 0.5 at chromosome starts
     genpos = None
@@ -42,6 +44,8 @@ def gen_layout(g, c=None):
         xo = g.uniform(0, 0.5, m); xo[st] = 0.5
     elif kind == "mixed":
         xo = g.uniform(0, 0.5, m); xo[g.random(m) < 0.25] = 0.0; xo[g.random(m) < 0.15] = 0.5; xo[st] = 0.5
+    elif kind == "above-half":   # user-supplied probabilities over the whole of [0, 1], obligatory crossovers included
+        xo = g.uniform(0, 1.0, m); xo[g.random(m) < 0.15] = 1.0; xo[g.random(m) < 0.1] = 0.75; xo[st] = 0.5
     elif kind == "leading-zeros":   # user-supplied vector: exact zeros in front (also at chromosome starts), positive later
         xo = g.uniform(0.02, 0.5, m); xo[g.random(m) < 0.2] = 0.0; xo[: int(g.integers(1, max(2, m // 3)))] = 0.0
         xo[st & (g.random(m) < 0.5)] = 0.0
@@ -238,7 +242,7 @@ def case_exact(ctx, c):
     if c % 40 == 7:
         m = int(g.choice([4097, 8193, 9000, 12289]))      # beyond internal block sizes of a vectorised meiosis
     chrgrp = pop.chrom_layout(g, m, nchr)
-    xo = pop.make_xoprob(g, chrgrp, ["mixed", "random", "half", "zero", "mixed"][int(g.integers(5))])
+    xo = pop.make_xoprob(g, chrgrp, ["mixed", "random", "half", "zero", "mixed", "wide"][int(g.integers(6))])
     if g.random() < 0.25:   # leading exact zeros followed by positive entries
         xo[: int(g.integers(1, max(2, m // 2)))] = 0.0
     pos = xo[xo > 0]
